@@ -6,25 +6,11 @@
 (*   delete   = only when requested: dst paths absent from src and not excluded        *)
 (* Paths are indices 1..N in the component-wise order of the concrete names the        *)
 (* harness uses (Names[i] gives the components).  Meta is <<size, mtime>> or None.      *)
-EXTENDS GlobDefs
+EXTENDS PlanDefs
 
-CONSTANTS N, Names, Metas, PatLists
+CONSTANTS Metas, PatLists
 
-None == <<>>
-MetaN == Metas \cup {None}
-
-Needs(s, d) == d = None \/ s[1] # d[1] \/ s[2] # d[2]
-
-Excl(p, pats) == ExcludedAlg(Names[p], pats)
-
-(* ---- set definitions ---- *)
-RECURSIVE Asc(_)
-Asc(S) == IF S = {} THEN <<>> ELSE LET m == CHOOSE x \in S : \A y \in S : x <= y IN <<m>> \o Asc(S \ {m})
-
-TransferDef(src, dst, pats) == {p \in 1..N : src[p] # None /\ ~ExcludedDef(Names[p], pats) /\ Needs(src[p], dst[p])}
-SkippedDef(src, dst, pats)  == Cardinality({p \in 1..N : src[p] # None /\ ~ExcludedDef(Names[p], pats) /\ ~Needs(src[p], dst[p])})
-DeleteDef(src, dst, pats, del) ==
-  IF del THEN {p \in 1..N : dst[p] # None /\ src[p] = None /\ ~ExcludedDef(Names[p], pats)} ELSE {}
+MetaN == Metas \cup {<<>>}
 
 (* ---- the code's two loops ---- *)
 VARIABLES src, dst, pats, del, i, phase2, transfer, skipped, delete
